@@ -85,6 +85,10 @@ def _pure(fn, *args, **kw):
 def _shape_arg(out, form):
     if form == 'int':
         return int(out[0])
+    if form == 'npint':                       # a tuple of NumPy integers (what arithmetic on array shapes / np.max hands out)
+        return tuple(np.int64(v) for v in out)
+    if form == 'ndarray':
+        return np.asarray(out)
     return list(out) if form == 'list' else tuple(out)
 
 
@@ -614,6 +618,73 @@ def _p_resample(c, want_out=False):
     return None
 
 
+@pred('pad_nd')
+def _p_pad_nd(c):
+    """pad2d on arrays that are not 2-D (an integer out_shape / Q means every axis of the array): every axis follows the convention"""
+    ft = _impl()[0]
+    shp = tuple(c['in'])
+    a = np.arange(1, int(np.prod(shp)) + 1, dtype=float).reshape(shp)
+    kw = {'mode': c.get('mode', 'constant')}
+    if c.get('out') is not None:
+        kw['out_shape'] = int(c['out']) if c.get('outform', 'int') == 'int' else tuple(c['out'])
+        out_shape = (int(c['out']),) * a.ndim if c.get('outform', 'int') == 'int' else tuple(c['out'])
+    else:
+        kw['Q'] = float(Fraction(c['Q']))
+        q = Fraction(c['Q'])
+        out_shape = tuple(-((-n * q.numerator) // q.denominator) for n in shp)
+    out, problem = _pure(ft.pad2d, a, **kw)
+    if problem:
+        return problem
+    if out.shape != out_shape:
+        return f'padded shape {out.shape}, expected {out_shape}'
+    if out[tuple(N // 2 for N in out_shape)] != a[tuple(n // 2 for n in shp)]:
+        return f'origin sample of the {a.ndim}-D input is not on the origin sample of the padded array'
+    blk = tuple(slice(N // 2 - n // 2, N // 2 - n // 2 + n) for n, N in zip(shp, out_shape))
+    if not np.array_equal(out[blk], a):
+        return 'the input block is not reproduced around the origin of the padded array'
+    return None
+
+
+@pred('compose')
+def _p_compose(c):
+    """two pads in a row place the data where the single pad does; two crops keep the block the single crop keeps"""
+    ft = _impl()[0]
+    a = _arr(c['in'])
+    if c['op'] == 'pad':
+        kw = {'mode': c.get('mode', 'constant')}
+        if c.get('value') is not None:
+            kw['value'] = _val(c['value'])
+        two = ft.pad2d(ft.pad2d(a, out_shape=tuple(c['mid']), **kw), out_shape=tuple(c['out']), **kw)
+        one = ft.pad2d(a, out_shape=tuple(c['out']), **kw)
+    else:
+        two = ft.crop_center(ft.crop_center(a, tuple(c['mid'])), tuple(c['out']))
+        one = ft.crop_center(a, tuple(c['out']))
+    return None if _same(np.asarray(two), np.asarray(one)) else f'{c["op"]} {c["in"]} -> {c["mid"]} -> {c["out"]} differs from {c["op"]} {c["in"]} -> {c["out"]}'
+
+
+@pred('centroid_pad')
+def _p_centroid_pad(c):
+    """zero padding does not move the spatial centroid of extended data (any parity combination)"""
+    ft, psf = _impl()[0], _impl()[2]
+    m, n = c['in']
+    d = np.random.default_rng(c['seed']).random((m, n)) + 0.25
+    if c.get('blob'):
+        d = np.zeros((m, n))
+        p, q = c['blob']
+        d[p - 1:p + 2, q - 1:q + 2] = [[1, 2, 1], [2, 5, 2], [1, 2, 1]]
+    dx = c['dx']
+    c0 = psf.centroid(d, dx)
+    c1 = psf.centroid(ft.pad2d(d, out_shape=tuple(c['out'])), dx)
+    if any(abs(u - v) > 1e-9 * max(abs(dx), abs(u)) for u, v in zip(c0, c1)):
+        return f'centroid {tuple(float(v) for v in c0)} became {tuple(float(v) for v in c1)} after zero padding to {c["out"]}'
+    if c.get('blob'):
+        p, q = c['blob']
+        ey, ex = (p - m // 2) * dx, (q - n // 2) * dx
+        if abs(c0[0] - ey) > 1e-9 * max(1, abs(ey)) or abs(c0[1] - ex) > 1e-9 * max(1, abs(ex)):
+            return f'symmetric source centred {(p - m // 2, q - n // 2)} samples from the origin reported at {(c0[0] / dx, c0[1] / dx)} samples'
+    return None
+
+
 def _symmetric(M, o):
     m, n = M.shape
     k0, k1 = min(o[0], m - 1 - o[0]), min(o[1], n - 1 - o[1])
@@ -861,6 +932,8 @@ def correspondence(ctx):
             {'outform': 'tuple', 'mode': 'wrap', 'value': None, 'dtype': 'int64'},
             {'outform': 'tuple', 'mode': 'constant', 'value': '1.5', 'layout': 'T'},
             {'outform': 'tuple', 'mode': 'edge', 'value': None, 'layout': 'strided'},
+            {'outform': 'npint', 'mode': 'constant', 'value': '0'},
+            {'outform': 'ndarray', 'mode': 'edge', 'value': None},
         ] + [{'outform': 'tuple', 'mode': mo, 'value': None} for mo in MODES_EXTRA]
         for v in (variants if ctx.thorough else variants[k % 2::2] + variants[:2]):
             for axis in (0, 1):
@@ -869,7 +942,8 @@ def correspondence(ctx):
                 case = {'in': list(shp), 'out': [N, N], **v}
                 _pad_case(ctx, case, w, nontrivial=(n != N and n > 1), tag=f'alt/{v["outform"]}/{v.get("dtype", "f8")}/{v["mode"]}')
         for v in ({'outform': 'int'}, {'outform': 'list'}, {'outform': 'tuple', 'dtype': 'int64'}, {'outform': 'tuple', 'layout': 'T'},
-                  {'outform': 'tuple', 'layout': 'strided'}, {'outform': 'int', 'dtype': 'complex128'}):
+                  {'outform': 'tuple', 'layout': 'strided'}, {'outform': 'int', 'dtype': 'complex128'}, {'outform': 'npint'},
+                  {'outform': 'ndarray'}):
             N2 = [N, N + 1, N + 3][k % 3]
             l2 = N2 // 2 - n // 2
             for axis in (0, 1):
@@ -1122,6 +1196,37 @@ def _session3(ctx, M, pairs, ns, shapes, rat):
                     continue
                 _run_pred(ctx, 'richdata_derived', {'shape': [m, n], 'dx': dx, 'what': what, 'history': hist,
                                                     'at': [(m - 1) - m // 2, -(n // 2)]}, nontrivial=m > 1 and n > 1, tag=f'{what}/{hist}')
+    # ---- families of session 3: arrays that are not 2-D, compositions, centroid under padding (extended data)
+    L = ctx.scale(9, 14)
+    for n in range(1, L + 1):
+        for N in range(n, L + 3):
+            _run_pred(ctx, 'pad_nd', {'in': [n], 'out': N, 'mode': ('constant', 'edge')[(n + N) % 2]}, nontrivial=n != N and n > 1, tag='1d/int')
+            _run_pred(ctx, 'pad_nd', {'in': [n], 'out': [N], 'outform': 'tuple'}, nontrivial=n != N and n > 1, tag='1d/tuple')
+        for q in ('2', '3/2', '9/8'):
+            _run_pred(ctx, 'pad_nd', {'in': [n], 'Q': q}, nontrivial=n > 1, tag='1d/Q')
+    for shp in itertools.product(range(1, ctx.scale(5, 7)), repeat=3):
+        N = max(shp) + (sum(shp) % 3)
+        _run_pred(ctx, 'pad_nd', {'in': list(shp), 'out': N, 'mode': ('constant', 'edge')[sum(shp) % 2]}, nontrivial=len(set(shp)) > 1, tag='3d/int')
+        _run_pred(ctx, 'pad_nd', {'in': list(shp), 'out': [shp[0] + 2, shp[1] + 3, shp[2] + (shp[0] % 2)], 'outform': 'tuple'},
+                  nontrivial=True, tag='3d/tuple')
+        if sum(shp) % 4 == 0:
+            _run_pred(ctx, 'pad_nd', {'in': list(shp), 'Q': '3/2'}, nontrivial=True, tag='3d/Q')
+    K = ctx.scale(9, 13)
+    for (n, N, P_) in itertools.product(range(1, K + 1), repeat=3):
+        if not (n <= N <= P_):
+            continue
+        t = n + N + P_
+        mode, val = [('constant', '0'), ('constant', '1.5'), ('edge', None)][t % 3]
+        _run_pred(ctx, 'compose', {'op': 'pad', 'in': [n, (n % 3) + 1], 'mid': [N, (n % 3) + 1 + t % 2], 'out': [P_, (n % 3) + 4],
+                                   'mode': mode, 'value': val}, nontrivial=n < N < P_, tag=f'pad/{mode}/par{n % 2}{N % 2}{P_ % 2}')
+        _run_pred(ctx, 'compose', {'op': 'crop', 'in': [P_, (n % 3) + 4], 'mid': [N, (n % 3) + 1 + t % 2], 'out': [n, (n % 3) + 1]},
+                  nontrivial=n < N < P_, tag=f'crop/par{P_ % 2}{N % 2}{n % 2}')
+    for (m, n) in itertools.product(range(3, ctx.scale(9, 13)), repeat=2):
+        for (gm, gn) in ((0, 1), (1, 0), (3, 4), (2, 2), (5, 1)):
+            case = {'in': [m, n], 'out': [m + gm, n + gn], 'dx': DXS[(m + gn) % len(DXS)], 'seed': int(ctx.rng.integers(1 << 30))}
+            if (m + n + gm) % 3 == 0:
+                case['blob'] = [1 + (m + gn) % (m - 2), 1 + (n + gm) % (n - 2)]
+            _run_pred(ctx, 'centroid_pad', case, nontrivial=True, tag=f'{"blob" if "blob" in case else "random"}/par{m % 2}{(m + gm) % 2}{n % 2}{(n + gn) % 2}')
     # ---- autocrop: window bounds of the model against where the real window lies, every centroid position / width that fits
     for (m, n) in ((9, 12), (12, 9), (10, 10), (11, 13)) + (((16, 17), (21, 20)) if ctx.thorough else ()):
         for t, (p, q) in enumerate(itertools.product(range(m), range(n))):
@@ -1294,6 +1399,17 @@ def search(ctx, hints):
                  ('wavefront_pad', {'in': [m, n], 'Q': 2}), ('wavefront_pad', {'in': [m, n], 'Q': 1, 'out': [m + 1, n + 2], 'inplace': False}),
                  ('wavefront_crop', {'in': [m, n], 'out': [max(1, m - 1), max(1, n - 2)]}),
                  ('foreign_origin', {'what': 'psd', 'shape': [m, n]}), ('foreign_origin', {'what': 'synth', 'shape': [m, n]})]
+        for item, case in cases:
+            d = _try(item, case)
+            if d:
+                return hit(item, case, d)
+    for n in range(1, 7):
+        cases = [('pad_nd', {'in': [n], 'out': N}) for N in range(n, 8)] + [('pad_nd', {'in': [n], 'Q': '3/2'})] + \
+                [('pad_nd', {'in': [n, 2, 3], 'out': n + 3}), ('pad_nd', {'in': [2, n, 3], 'out': [3, n + 1, 6], 'outform': 'tuple'})] + \
+                [('compose', {'op': 'pad', 'in': [n, 2], 'mid': [n + a_, 3], 'out': [n + a_ + b_, 5], 'mode': 'constant', 'value': '0'})
+                 for a_ in (1, 2) for b_ in (1, 2)] + \
+                [('compose', {'op': 'crop', 'in': [n + a_ + b_, 5], 'mid': [n + a_, 3], 'out': [n, 2]}) for a_ in (1, 2) for b_ in (1, 2)] + \
+                [('centroid_pad', {'in': [n + 2, 4], 'out': [n + 2 + a_, 4 + b_], 'dx': 0.5, 'seed': 1}) for a_ in (0, 1) for b_ in (1, 2)]
         for item, case in cases:
             d = _try(item, case)
             if d:
